@@ -49,6 +49,11 @@
 (*   FingerprintAnyInChain   the expected fingerprint is accepted if ANY     *)
 (*                           entry of the Certificate message has it, while *)
 (*                           the key is taken from the first entry          *)
+(*   NonEcKeySkipsProof      a well-formed certificate whose public key is  *)
+(*                           not an EC key (RSA, Ed25519) is accepted on its *)
+(*                           digest alone and the ServerKeyExchange that     *)
+(*                           follows counts as verified without any signature*)
+(*                           having been checked                             *)
 (*   Epoch0AppData           plaintext ApplicationData is delivered        *)
 (*   Epoch0HandshakeAfterKeys a plaintext handshake message can advance or  *)
 (*                           fail the handshake after keys were negotiated *)
@@ -131,6 +136,17 @@ CertOfId(id, e) == IF id = "stolen" THEN Genuine(e) ELSE IF id = "chain" THEN "c
 AlsoOfId(id, e) == IF id = "chain" THEN Genuine(e) ELSE "-"
 KeyOfId(id, e)  == IF id \in {"stolen", "chain"} THEN "certM" ELSE id
 
+\* Key type of the certificate behind the expected fingerprint (configuration dimension kS of the bounded model):
+\* "ec" - a P-256 key, the only kind whose signatures the library can verify; "nonec" - RSA / Ed25519: the
+\* certificate is well formed and has a digest like any other, but nothing signed with its key can be verified, so
+\* no peer - the genuine owner or somebody replaying the (public) certificate - can prove possession: the
+\* handshake must fail, whoever is at the other end. The genuine server's non-EC certificate is the id "certSn".
+NonEcCerts == {"certSn"}
+GenuineK(e, k) == IF e = "S" /\ k = "nonec" THEN "certSn" ELSE Genuine(e)
+CertOfIdK(id, e, k) == IF id = "stolen" \/ id = Genuine(e) THEN GenuineK(e, k) ELSE CertOfId(id, e)
+AlsoOfIdK(id, e, k) == IF id = "chain" THEN GenuineK(e, k) ELSE "-"
+KeyOfIdK(id, e, k)  == IF id = Genuine(e) THEN GenuineK(e, k) ELSE KeyOfId(id, e)
+
 Flight(msgs, rtx, why) == [msgs |-> msgs, rtx |-> rtx, why |-> why]
 Res(s, out) == [s |-> s, out |-> out]
 Fail(s) == Res([s EXCEPT !.st = "Failed"], <<>>)
@@ -191,6 +207,7 @@ RecvCERT(s, m) ==
   IF m.bad \/ m.cert = "-" THEN Fail(s)                              \* unparsable / empty chain
   ELSE IF s.expFp # "none" /\ m.cert # s.expFp
           /\ ~(Dev("FingerprintAnyInChain") /\ m.also = s.expFp) THEN Fail(s)
+  ELSE IF m.cert \in NonEcCerts /\ ~Dev("NonEcKeySkipsProof") THEN Fail(s)   \* no key to verify a proof of possession with
   ELSE Res([s EXCEPT !.peerCert = m.cert], <<>>)
 
 \* handle_server_key_exchange (client): ECDSA signature over randoms and ECDH parameters,
@@ -199,6 +216,8 @@ RecvSKE(s, m) ==
   IF s.role # "C" THEN Res(s, <<>>)
   ELSE IF m.bad THEN Res(s, <<>>)                                    \* undecodable: ignored, stays unverified
   ELSE IF s.peerCert = "-" \/ s.cr = "-" \/ s.sr = "-" THEN Fail(s)
+  ELSE IF s.peerCert \in NonEcCerts      \* (only with NonEcKeySkipsProof: share kept, nothing was proved - skeOk stays FALSE)
+  THEN Res([s EXCEPT !.peerDh = m.dh], <<>>)
   ELSE IF m.sigBy = s.peerCert /\ m.sigCr \in {s.cr, "*"} /\ m.sigSr \in {s.sr, "*"} /\ m.sigDh = m.dh
        THEN Res([s EXCEPT !.skeOk = TRUE, !.peerDh = m.dh], <<>>)
        ELSE IF Dev("SkeShareBeforeVerify") THEN Res([s EXCEPT !.peerDh = m.dh], <<>>)   \* share kept, message skipped
@@ -210,7 +229,8 @@ RecvCR(s, m) == Res([s EXCEPT !.crSeen = TRUE], <<>>)
 \* [Certificate,] ClientKeyExchange, [CertificateVerify,] ChangeCipherSpec, Finished.
 RecvSHD(s, m) ==
   IF s.keys # NoMaster THEN Res(s, <<>>)
-  ELSE IF s.role = "C" /\ ~s.skeOk THEN Fail(s)
+  ELSE IF s.role = "C" /\ ~s.skeOk
+          /\ ~(Dev("NonEcKeySkipsProof") /\ s.peerCert \in NonEcCerts /\ s.peerDh # "-") THEN Fail(s)
   ELSE IF s.role # "C" THEN Res(s, <<>>)
   ELSE
     LET q     == s.sendSeq
